@@ -118,6 +118,8 @@ where
         infinite_source: false,
         horizon: 0,
         no_retire_check: false,
+        prefix_spec: false,
+        sync_check: false,
     }
 }
 
@@ -350,6 +352,8 @@ pub fn generic_subjects(tagsets: &[InTags]) -> Vec<Subject> {
                 infinite_source: false,
                 horizon: 0,
                 no_retire_check: false,
+                prefix_spec: false,
+                sync_check: false,
             });
         }
         // Add / Xor: two inputs. Tags follow the first input.
@@ -393,6 +397,8 @@ pub fn generic_subjects(tagsets: &[InTags]) -> Vec<Subject> {
                 infinite_source: false,
                 horizon: 0,
                 no_retire_check: false,
+                prefix_spec: false,
+                sync_check: false,
             });
         }
     }
@@ -425,6 +431,8 @@ pub fn sink_subjects() -> Vec<Subject> {
             infinite_source: false,
             horizon: 0,
             no_retire_check: false,
+            prefix_spec: false,
+            sync_check: false,
         });
     }
     {
@@ -449,6 +457,8 @@ pub fn sink_subjects() -> Vec<Subject> {
             infinite_source: false,
             horizon: 0,
             no_retire_check: false,
+            prefix_spec: false,
+            sync_check: false,
         });
     }
     v
@@ -459,6 +469,14 @@ pub fn all_subjects(prop: &str, thorough: bool) -> Vec<Subject> {
         "C12" => tag_placements(6, thorough),
         _ => vec![vec![(0, "a".into(), TagValue::U64(7)), (4, "b".into(), TagValue::Bool(true))]],
     };
+    if prop == "C16" {
+        return crate::subjects_src::source_subjects();
+    }
+    if prop == "C19" {
+        let mut ts = tag_placements(5, false);
+        ts.truncate(if thorough { 20 } else { 6 });
+        return crate::subjects_derive::derive_subjects(&ts);
+    }
     let mut v = generic_subjects(&tagsets);
     if prop == "C09" {
         v.extend(sink_subjects());
